@@ -255,6 +255,8 @@ def r7_dequeue(tree, rep, rule="C09.R7"):
 
 def run(tree, rep, tier):
     r7_dequeue(tree, rep)
+    from .. import payload
+    payload.check(tree, rep, "C09.R8", "never delivered to the peer (and blocks every later message behind it)")
     from .. import sharedstate
     sharedstate.check(tree, rep, "C09.R0")
     prog = Program(tree)
